@@ -94,6 +94,7 @@ class Network:
     def __init__(self, cfg):
         self.cfg = cfg
         self.listeners = {}     # addr -> listening SimSocket
+        self.closed_addrs = set()   # addresses whose listener has been closed
         self.conns = []         # Connection records
         self.sends = []         # (decision, time, conn_id, direction 'c2s'|'s2c', bytes)
         self.mid_message_blocks = 0
@@ -221,7 +222,8 @@ class SimSocket:
         if self._state != 'new':
             raise OSError(106, 'Transport endpoint is already connected')
         # a conforming client is started after the server listens (or retries): wait for it
-        s.yield_('connect', self.name, lambda: addr in net.listeners)
+        s.yield_('connect', self.name,
+                 lambda: addr in net.listeners or addr in net.closed_addrs)
         lst = net.listeners.get(addr)
         if lst is None or lst._state != 'listening':
             raise ConnectionRefusedError(111, 'Connection refused')
@@ -343,6 +345,7 @@ class SimSocket:
             net = network()
             if net.listeners.get(self._addr) is self:
                 del net.listeners[self._addr]
+                net.closed_addrs.add(self._addr)
             # connections never accepted are reset, as TCP would
             for conn in self._queue:
                 conn.s2c.reset = True
